@@ -47,9 +47,17 @@ LdroWritten(impl, txns) ==
       [] impl = "sx1272" -> LET t == LastWith(txns, LAMBDA t : Len(t) = 2 /\ t[1] = 157) IN IF t = <<>> THEN -1 ELSE t[2] % 2
       [] OTHER -> -1
 
+\* "... and the drivers program the chip accordingly": whatever the decision (also for the one pair where the
+\* nominal and the exact bandwidth disagree about the 16.38 ms rule), the bit written is the driver's own decision
+WrittenIsDecisionOk(e) ==
+    IF e.supported = 1 /\ e.what = "written" /\ "dec" \in DOMAIN e
+    THEN Chk(<<"ldro written = the driver's own decision", e.impl, e.sf, e.bw>>, e.dec, LdroWritten(e.impl, e.txns))
+    ELSE TRUE
+
 LdroOk(e) ==
-    IF e.supported = 0 \/ LdroAmbiguous(e.sf, e.bw) THEN TRUE
-    ELSE Chk(<<"ldro", e.impl, e.what, e.sf, e.bw>>, IF Ldro(e.sf, e.bw) THEN 1 ELSE 0,
+    /\ WrittenIsDecisionOk(e)
+    /\ IF e.supported = 0 \/ LdroAmbiguous(e.sf, e.bw) THEN TRUE
+       ELSE Chk(<<"ldro", e.impl, e.what, e.sf, e.bw>>, IF Ldro(e.sf, e.bw) THEN 1 ELSE 0,
              \* "written": the writes of set_modulation_params alone; "prepared": the writes of set_modulation_params
              \* followed by set_packet_params over a register file (the LAST write to the register that holds the
              \* bit decides what the chip ends up with)
